@@ -29,6 +29,39 @@ func (sg *skGen) isExact(h int) bool {
 	return ok && e.exact != nil
 }
 
+// fillOutliers adds n unit-weight values falling on n distinct pages of a paginated store.
+func (sg *skGen) fillOutliers(h int, n int) {
+	m := sg.m
+	lo, hi := m.Index(m.MinIndexableValue()*1.0001)+64, m.Index(m.MaxIndexableValue()*0.9999)-64
+	pages := (hi - lo) / 32
+	if pages < 8 {
+		sg.fillSketch(h, 10, 100)
+		return
+	}
+	if n > pages {
+		n = pages
+	}
+	start := lo
+	if pages > n {
+		// stay around the window centre when there is room
+		c := sg.center - 16*n
+		if c > lo && c+32*n < hi {
+			start = c
+		} else {
+			start = lo + 32*sg.g.rng.Intn(pages-n)
+		}
+	}
+	perm := sg.g.rng
+	for k := 0; k < n; k++ {
+		idx := start + 32*k + perm.Intn(32)
+		v := nudge(m.LowerBound(idx), 3)
+		if perm.Bool(20) {
+			v = -v
+		}
+		sg.add(h, v, 1)
+	}
+}
+
 // dec emits a decode of `bs` into a new sketch h2 of a random store kind.
 func (sg *skGen) dec(h2 int, providedMh string, oracleMh int, spec string, exact bool, bs []byte) string {
 	x := ""
@@ -50,8 +83,13 @@ func (g *Gen) genRoundTripHistory() {
 	if exact {
 		x = " x"
 	}
-	sg.line("K 1 1 %s%s", sg.storeSpec(allKinds), x)
-	sg.fillSketch(1, r.Range(0, 40), 60)
+	if r.Bool(25) {
+		sg.line("K 1 1 pag%s", x)
+		sg.fillSketch(1, r.Range(1, 40), 100) // unit weights: buffered entries, encoded as index deltas
+	} else {
+		sg.line("K 1 1 %s%s", sg.storeSpec(allKinds), x)
+		sg.fillSketch(1, r.Range(0, 40), 60)
+	}
 	if r.Bool(20) {
 		sg.line("rew 1 %s", hexF([]float64{0.5, 2, 0.25, 3}[r.Intn(4)]))
 	}
@@ -79,8 +117,15 @@ func (g *Gen) genRoundTripHistory() {
 		sg.queries(2, 6)
 	}
 	// decoding into a non-empty sketch is merging
-	sg.line("K 3 1 %s%s", sg.storeSpec(nonCollapsing), x)
-	sg.fillSketch(3, r.Range(0, 15), 70)
+	if r.Bool(30) {
+		// a paginated receiver whose buffer holds many unit entries that compaction cannot move to
+		// pages (one per page): the buffer is then longer than its compaction trigger
+		sg.line("K 3 1 pag%s", x)
+		sg.fillOutliers(3, r.Range(60, 320))
+	} else {
+		sg.line("K 3 1 %s%s", sg.storeSpec(nonCollapsing), x)
+		sg.fillSketch(3, r.Range(0, 15), 70)
+	}
 	sg.line("copy 4 3")
 	sg.line("decm 3 %s", showBytes(bs))
 	sg.line("merge 4 1")
@@ -110,6 +155,7 @@ func (g *Gen) genRoundTripHistory() {
 // ---- grammar-generated streams (C07 ii)
 
 type blockGen struct {
+	big    bool
 	sg     *skGen
 	out    []byte
 	base   int
@@ -135,6 +181,26 @@ func (b *blockGen) wcount() float64 {
 func (b *blockGen) binsBlock(side byte) {
 	r := b.sg.g.rng
 	n := r.Range(0, 12)
+	if b.big && r.Bool(60) {
+		// many unit-weight bins one page apart: fills the buffer of a paginated target beyond its trigger
+		n = r.Range(60, 260)
+		layout := byte(1)
+		if r.Bool(50) {
+			layout = 2
+		}
+		b.flag(side, layout)
+		enc.EncodeUvarint64(&b.out, uint64(n))
+		idx := 0
+		for i := 0; i < n; i++ {
+			next := b.base - 16*n + 32*i + r.Intn(32)
+			enc.EncodeVarint64(&b.out, int64(next-idx))
+			if layout == 1 {
+				enc.EncodeVarfloat64(&b.out, 1)
+			}
+			idx = next
+		}
+		return
+	}
 	switch r.Intn(3) {
 	case 0: // index deltas and counts
 		b.flag(side, 1)
@@ -211,6 +277,7 @@ func (g *Gen) genGrammarHistory() {
 		}
 	}
 	bg := &blockGen{sg: sg, base: base, spread: spread}
+	bg.big = hi-lo > 40000 && base-5000 > lo && base+5000 < hi && r.Bool(25)
 	exact := r.Bool(25)
 	embed := r.Bool(60)
 	nb := r.Range(0, 7)
@@ -279,8 +346,13 @@ func (g *Gen) genTruncationHistory() {
 	if exact {
 		x = " x"
 	}
-	sg.line("K 1 1 %s%s", sg.storeSpec(allKinds), x)
-	sg.fillSketch(1, r.Range(1, 25), 60)
+	srcSpec := sg.storeSpec(allKinds)
+	sg.line("K 1 1 %s%s", srcSpec, x)
+	unitPct := 60
+	if r.Bool(30) {
+		unitPct = 100
+	}
+	sg.fillSketch(1, r.Range(1, 25), unitPct)
 	omit := r.Bool(30)
 	bs, ok := sg.bytesOf(1, omit)
 	if !ok {
@@ -301,10 +373,14 @@ func (g *Gen) genTruncationHistory() {
 		if !g.thorough() && !isBoundary[k] && !isBoundary[k+1] && !isBoundary[k-1] && !r.Bool(25) {
 			continue
 		}
-		spec := sg.storeSpec(allKinds)
-		if sg.dec(h, prov, 1, spec, exact, bs[:k]) == "ok" {
-			sg.ensureValues(h)
-			sg.obs(h)
+		// two consumers per cut: a random kind, and the producer's own kind (the same-kind decoders
+		// are the specialised code paths)
+		specs := []string{sg.storeSpec(allKinds), srcSpec}
+		for _, spec := range specs {
+			if sg.dec(h, prov, 1, spec, exact, bs[:k]) == "ok" {
+				sg.ensureValues(h)
+				sg.obs(h)
+			}
 		}
 		g.stats["cuts"]++
 		if isBoundary[k] {
